@@ -954,6 +954,102 @@ func ruleC17TagNames(p *Prog, a *Anchors, r *Report) {
 	} else {
 		r.OK("removetags:pattern", p.Pos(f.Pos()), "pattern %q agrees with letter(letter|digit)* on %d strings", pat, n)
 	}
+	// the expression built from the names: instantiated for the names a and b and evaluated on all strings of up to 7
+	// items over {<, >, /, a, b, -, x, space}: every plain named tag (<a>, </a>, <a/>) is matched, and everything that is
+	// matched is a tag named a or b (name followed by `>`, `/` or white space) — `<ab>`, `<a-b>`, `<x>` and text stay.
+	// (Whether a named tag WITH attributes is removed is left open.)
+	func() {
+		for _, b := range f.Blocks {
+			for _, in := range b.Instrs {
+				c, ok := in.(*ssa.Call)
+				if !ok || c.Common().StaticCallee() == nil {
+					continue
+				}
+				if n := p.extName(c.Common().StaticCallee()); n != "regexp.Compile" && n != "regexp.MustCompile" {
+					continue
+				}
+				key := "removetags:expression"
+				sp, isCall := c.Common().Args[0].(*ssa.Call)
+				if !isCall || sp.Common().StaticCallee() == nil || p.extName(sp.Common().StaticCallee()) != "fmt.Sprintf" {
+					r.Assume(key, p.InstrPos(in), "the expression is not built by fmt.Sprintf from a constant format: not evaluated")
+					continue
+				}
+				format, okF := constString(sp.Common().Args[0])
+				if !okF || strings.Count(format, "%s") != 1 || strings.Count(format, "%") != 1 {
+					r.Assume(key, p.InstrPos(in), "the format is not a constant with exactly one %%s: not evaluated")
+					continue
+				}
+				sep := ""
+				foundJoin := false
+				for _, bb := range f.Blocks {
+					for _, x := range bb.Instrs {
+						if jc, isJ := x.(*ssa.Call); isJ && jc.Common().StaticCallee() != nil && p.extName(jc.Common().StaticCallee()) == "strings.Join" {
+							if sv, okS := constString(jc.Common().Args[1]); okS {
+								sep, foundJoin = sv, true
+							}
+						}
+					}
+				}
+				inst := "a"
+				if foundJoin {
+					inst = "a" + sep + "b"
+				}
+				pat := strings.Replace(format, "%s", inst, 1)
+				re, err := regexp.Compile(pat)
+				if err != nil {
+					r.Bad(key, p.InstrPos(in), "the expression %q (format %q for the names a, b) does not compile", pat, format)
+					continue
+				}
+				names := "(?:a)"
+				if foundJoin {
+					names = "(?:a|b)"
+				}
+				plain := regexp.MustCompile(`</?` + names + `/?>`)
+				isNamedTag := regexp.MustCompile(`^</?` + names + `(?:[ \t\n][^<>]*)?/?>$`)
+				alphabet := []string{"<", ">", "/", "a", "b", "-", "x", " "}
+				bad := ""
+				count := 0
+				var gen func(prefix string, left int)
+				gen = func(prefix string, left int) {
+					if bad != "" {
+						return
+					}
+					count++
+					ms := re.FindAllStringIndex(prefix, -1)
+					for _, m := range ms {
+						if !isNamedTag.MatchString(prefix[m[0]:m[1]]) {
+							bad = fmt.Sprintf("in %q it removes %q, which is not a tag named a or b", prefix, prefix[m[0]:m[1]])
+							return
+						}
+					}
+					for _, pm := range plain.FindAllStringIndex(prefix, -1) {
+						covered := false
+						for _, m := range ms {
+							if m[0] <= pm[0] && pm[1] <= m[1] {
+								covered = true
+							}
+						}
+						if !covered {
+							bad = fmt.Sprintf("in %q the named tag %q is not removed", prefix, prefix[pm[0]:pm[1]])
+							return
+						}
+					}
+					if left == 0 {
+						return
+					}
+					for _, ch := range alphabet {
+						gen(prefix+ch, left-1)
+					}
+				}
+				gen("", 7)
+				if bad != "" {
+					r.Bad(key, p.InstrPos(in), "the expression built from the names (%q for a, b): %s", pat, bad)
+				} else {
+					r.OK(key, p.InstrPos(in), "%q (for the names a, b) matches every plain named tag and nothing that is not a tag of that name, on %d strings", pat, count)
+				}
+			}
+		}
+	}()
 	// "removes only the named tags": what is returned is the input text after removals by the tag expression(s) and
 	// nothing else (no trimming, no other rewriting), and the removal happens in ONE pass over the text — applying one
 	// expression per name in turn lets the removal of one tag assemble another from the text around it
